@@ -189,6 +189,19 @@ class RCAnalysis:
                                         sides.add('this' if b_.get('k') in (None, 'this') else 'tmp' if b_.get('id') == pid_ else None)
                                 if sides == set(('this', 'tmp')):
                                     return st.set(swapped=True)
+                        # ... or exchanges them with two assignments through a temporary (`t = _p; _p = other._p; other._p = t;`)
+                        to_this = to_tmp = False
+                        for w in fn_exprs(g):
+                            if w.get('k') == 'bin' and w.get('op') == '=':
+                                l_ = strip_lv(w['x'])
+                                if l_.get('k') == 'mem' and l_.get('f') == fam['storage']:
+                                    b_ = strip_lv(l_.get('b') or {})
+                                    if b_.get('k') in (None, 'this'):
+                                        to_this = True
+                                    elif b_.get('k') == 'var' and b_.get('id') == pid_:
+                                        to_tmp = True
+                        if to_this and to_tmp:
+                            return st.set(swapped=True)
                 if e.get('clsp') in family and e.get('fn') and depth < 4 and own_object(f, e, family):
                     cands = self.prog.fn(e['fn'], e.get('sig'))
                     if cands and cands[0] is not f:
